@@ -54,6 +54,19 @@ def tname(t: Any) -> str:
 
 
 # =============================================================================== harness
+BAD_TDS: dict[str, Any] = {
+    "three": lambda: 3,
+    "zero": lambda: 0,
+    "false": lambda: False,
+    "zero_float": lambda: 0.0,
+    "empty_str": lambda: "",
+    "empty_tuple": lambda: (),
+    "empty_list": lambda: [],
+    "empty_dict": lambda: {},
+    "str": lambda: "callback",
+}
+
+
 class H:
     def __init__(self, sim: Sim, plan: dict) -> None:
         self.sim = sim
@@ -250,7 +263,8 @@ class H:
         elif bad == "bad_type":
             types = [5]  # type: ignore[list-item]
         elif bad == "bad_td":
-            kwargs["teardown_callback"] = 3
+            # non-callables, most of them falsy (an "if teardown_callback:" test lets them by)
+            kwargs["teardown_callback"] = BAD_TDS[spec.get("bad_td_val", "three")]()
             tdid = None
         typearg: Any = types
         if len(types) == 1 and spec.get("single"):
@@ -1150,6 +1164,8 @@ class G:
                 spec["name"] = rng.choice(BAD_NAMES)
             else:
                 spec["bad"] = bad
+                if bad == "bad_td" and rng.random() < 0.6:
+                    spec["bad_td_val"] = rng.choice(sorted(BAD_TDS))
             return ["add", spec]
         self.nfac += 1
         spec = {"fid": f"f{self.nfac}", "types": self.types(0.4), "name": rng.choice(self.names), "kind": "sync"}
